@@ -577,6 +577,13 @@ pub fn run(tier: Tier) -> Report {
     for code in 2..=6u8 {
         dec_cases.push(SHdr { version: 0, tr: code, size: SSize::Code(code), ptype: 0, deblock: true, q: 5, pei: vec![] });
     }
+    // the boundary lattice of sizes (all pairs under the pixel cap), picture type and flags rotating
+    let lattice = size_lattice(if tier.thorough() { 1 << 22 } else { 1 << 18 });
+    rep.extra("decoded_header_size_lattice", json!(lattice.len()));
+    for (i, &(w, h)) in lattice.iter().enumerate() {
+        let q = 1 + (i * 7 % 31) as u8;
+        dec_cases.push(SHdr { version: (i % 2) as u8, tr: (i * 37 % 256) as u8, size: SSize::auto(w, h), ptype: (i % 3) as u8, deblock: i % 5 < 2, q, pei: if i % 4 == 0 { vec![q] } else { vec![] } });
+    }
     dec_cases.par_iter().for_each(|h| {
         let mut d = Dec::new(1);
         let (w, hh) = h.size.dims().unwrap();
@@ -632,6 +639,24 @@ pub fn run(tier: Tier) -> Report {
                 }
             }
         }
+    }
+    // custom picture formats over the lattice of multiples of four
+    {
+        let dims: Vec<u16> = dim_lattice().into_iter().filter(|d| *d < 4096).flat_map(|d| [d & !3, (d & !3) + 4]).filter(|d| (4..=2044).contains(d)).collect::<std::collections::BTreeSet<u16>>().into_iter().collect();
+        let cap: u64 = if tier.thorough() { 1 << 22 } else { 1 << 18 };
+        let mut i = 0usize;
+        for &w in dims.iter().chain([2048u16].iter()) {
+            for &hh in &dims {
+                if w as u64 * hh as u64 > cap {
+                    continue;
+                }
+                i += 1;
+                let mut h = StdHdr::custom(w, hh, i % 2 == 1, (i * 11 % 256) as u8, 1 + (i * 5 % 31) as u8);
+                h.plus.as_mut().unwrap().cpfmt.par = 1 + (i % 5) as u8;
+                std_cases.push(h);
+            }
+        }
+        rep.extra("decoded_header_cpfmt_lattice", json!(i));
     }
     std_cases.par_iter().for_each(|h| {
         let mut d = Dec::new(0);
